@@ -119,7 +119,7 @@ impl NormalFormQuery {
                     // Fused representations exist only for NullableI64/NullableF64/NullableStr, so keys that are
                     // still in an (order preserving) narrow encoding such as NullableU8 are decoded first.
                     let decoded = ranking_type.codec.decode(ranking, &mut planner);
-                    planner.fuse_nulls(decoded)
+                    fuse_nulls_widened(&mut planner, decoded)
                 } else {
                     ranking
                 };
@@ -191,7 +191,7 @@ impl NormalFormQuery {
             )?;
             plan = plan_type.codec.decode(plan, &mut planner);
             if plan.is_nullable() {
-                plan = planner.fuse_nulls(plan);
+                plan = fuse_nulls_widened(&mut planner, plan);
             }
             plan = planner.collect(plan, &format!("order_by_{}", i));
             order_by.push((plan.any(), *desc));
@@ -494,6 +494,19 @@ impl NormalFormQuery {
             .map(|(name, column)| (name.to_string(), column.data_sections()))
             .collect()
     }
+}
+
+/// Fused representations exist only for NullableI64/NullableF64/NullableStr: narrower nullable integers that are not
+/// an encoding of a wider column (e.g. the NullableU8 result of a comparison used as sort key) are widened first.
+fn fuse_nulls_widened(planner: &mut QueryPlanner, plan: TypedBufferRef) -> TypedBufferRef {
+    let plan = match plan.tag {
+        EncodingType::NullableU8
+        | EncodingType::NullableU16
+        | EncodingType::NullableU32
+        | EncodingType::NullableU64 => planner.cast(plan, EncodingType::I64),
+        _ => plan,
+    };
+    planner.fuse_nulls(plan)
 }
 
 impl Query {
